@@ -103,7 +103,7 @@ theorem string_roundtrip (arch : Endian) (fd : FieldDef) (b : Bytes) (n : Nat)
 
 /-- date_time values: whole seconds in range come back unchanged -/
 theorem time_value_roundtrip (arch : Endian) (pf : PField) (ts : TsRef) (secs : Nat)
-    (hk : tcKind pf.tcode = .timeUTC) (h1 : 0 < secs) (h2 : secs < 4294967295) :
+    (hk : tcKind pf.tcode = .timeUTC) (h2 : secs < 4294967295) :
     ∃ bs, encodeScalar arch pf (.u 32) (.t secs 0 0) = .ok bs ∧
       (parseTimeStamp ts pf (arch.dec bs)).1 = some (.t secs 0 0) := by
   refine ⟨arch.enc 4 (LatLng.encodeTime secs), by simp [encodeScalar, hk], ?_⟩
@@ -223,7 +223,7 @@ theorem string_field_roundtrip (P : Profile) (hwf : ProfileWF P = true) (dm : De
 theorem time_field_roundtrip (P : Profile) (hwf : ProfileWF P = true) (dm : DefMsg) (pf : PField)
     (msg : Msg) (ts : TsRef) (secs : Nat)
     (hgf : P.getField dm.global pf.num = some pf)
-    (hk : tcKind pf.tcode = .timeUTC) (h1 : 0 < secs) (h2 : secs < 4294967295) :
+    (hk : tcKind pf.tcode = .timeUTC) (h2 : secs < 4294967295) :
     ∃ part, writeField dm.arch pf .time (.t secs 0 0) = .ok part ∧ part.length = (fdOf pf).size ∧
       applyField P dm true (fdOf pf) part (some msg) ts =
         .ok (some { msg with vals := setAt msg.vals pf.sindex (.t secs 0 0) })
@@ -240,7 +240,7 @@ theorem time_field_roundtrip (P : Profile) (hwf : ProfileWF P = true) (dm : DefM
     simp only [harr, Bool.false_eq_true, ↓reduceIte, Option.some.injEq] at hslot
     exact hslot.symm
   subst hkt
-  obtain ⟨bs, he, hp⟩ := time_value_roundtrip dm.arch pf ts secs hk h1 h2
+  obtain ⟨bs, he, hp⟩ := time_value_roundtrip dm.arch pf ts secs hk h2
   have hwf' : writeField dm.arch pf .time (.t secs 0 0) = .ok bs := by
     unfold writeField
     simp only [harr, Bool.not_false, ↓reduceIte]
@@ -301,8 +301,8 @@ theorem coord_field_roundtrip (P : Profile) (hwf : ProfileWF P = true) (dm : Def
     (msg : Msg) (ts : TsRef) (z : Int) (isLat : Bool)
     (hgf : P.getField dm.global pf.num = some pf)
     (hk : tcKind pf.tcode = (if isLat then .lat else .lng))
-    (hlo : (if isLat then -(1073741824 : Int) else -(2147483648 : Int)) ≤ z)
-    (hhi : z < (if isLat then (1073741824 : Int) else 2147483648)) :
+    (hzr : if isLat then ((-(1073741824 : Int) ≤ z ∧ z < 1073741824) ∨ z = 2147483647)
+      else (-(2147483648 : Int) ≤ z ∧ z < 2147483648)) :
     ∃ part, writeField dm.arch pf (if isLat then .lat else .lng) (if isLat then .lat z else .lng z) = .ok part ∧
       part.length = (fdOf pf).size ∧
       applyField P dm true (fdOf pf) part (some msg) ts =
@@ -312,11 +312,11 @@ theorem coord_field_roundtrip (P : Profile) (hwf : ProfileWF P = true) (dm : Def
   obtain ⟨k, hl, hslot⟩ := facts.slot
   have hkind := facts.kind
   have hz : -(2147483648 : Int) ≤ z ∧ z < 2147483648 := by
-    cases isLat <;> simp only [Bool.false_eq_true, ↓reduceIte] at hlo hhi <;> omega
+    cases isLat <;> simp only [Bool.false_eq_true, ↓reduceIte] at hzr <;> omega
   have hrt := toSigned32_roundtrip z hz.1 hz.2
   cases isLat with
   | true =>
-    simp only [↓reduceIte] at hk hlo hhi ⊢
+    simp only [↓reduceIte] at hk hzr ⊢
     rw [hk] at hkind
     obtain ⟨hpb, harr⟩ := hkind
     have hkt : k = .lat := by
@@ -350,11 +350,12 @@ theorem coord_field_roundtrip (P : Profile) (hwf : ProfileWF P = true) (dm : Def
       rw [enc_length]
     simp only [ne_eq, not_true_eq_false, ↓reduceIte]
     rw [htk, dec_enc, hrt]
-    have h1 : ¬ z = 2147483647 := by omega
-    have h2 : ¬ (z < -1073741824 ∨ z > 1073741823) := by omega
-    simp only [h1, h2, ↓reduceIte]
+    by_cases h1 : z = 2147483647
+    · simp only [h1, ↓reduceIte]
+    · have h2 : ¬ (z < -1073741824 ∨ z > 1073741823) := by omega
+      simp only [h1, h2, ↓reduceIte]
   | false =>
-    simp only [Bool.false_eq_true, ↓reduceIte] at hk hlo hhi ⊢
+    simp only [Bool.false_eq_true, ↓reduceIte] at hk hzr ⊢
     rw [hk] at hkind
     obtain ⟨hpb, harr⟩ := hkind
     have hkt : k = .lng := by
@@ -430,18 +431,18 @@ theorem fieldRT_string (P : Profile) (hwf : ProfileWF P = true) (dm : DefMsg) (p
 
 theorem fieldRT_time (P : Profile) (hwf : ProfileWF P = true) (dm : DefMsg) (pf : PField) (secs : Nat)
     (hgf : P.getField dm.global pf.num = some pf)
-    (hk : tcKind pf.tcode = .timeUTC) (h1 : 0 < secs) (h2 : secs < 4294967295) :
+    (hk : tcKind pf.tcode = .timeUTC) (h2 : secs < 4294967295) :
     FieldRT P dm pf .time (.t secs 0 0) := by
   intro msg ts part hpart
-  obtain ⟨part0, e1, _, e3⟩ := time_field_roundtrip P hwf dm pf msg ts secs hgf hk h1 h2
+  obtain ⟨part0, e1, _, e3⟩ := time_field_roundtrip P hwf dm pf msg ts secs hgf hk h2
   rw [e1] at hpart; cases hpart
   exact ⟨_, e3⟩
 
 theorem fieldRT_lat (P : Profile) (hwf : ProfileWF P = true) (dm : DefMsg) (pf : PField) (z : Int)
     (hgf : P.getField dm.global pf.num = some pf) (hk : tcKind pf.tcode = .lat)
-    (hlo : -(1073741824 : Int) ≤ z) (hhi : z < 1073741824) : FieldRT P dm pf .lat (.lat z) := by
+    (hz : (-(1073741824 : Int) ≤ z ∧ z < 1073741824) ∨ z = 2147483647) : FieldRT P dm pf .lat (.lat z) := by
   intro msg ts part hpart
-  obtain ⟨part0, e1, _, e3⟩ := coord_field_roundtrip P hwf dm pf msg ts z true hgf hk hlo hhi
+  obtain ⟨part0, e1, _, e3⟩ := coord_field_roundtrip P hwf dm pf msg ts z true hgf hk hz
   simp only [↓reduceIte] at e1 e3
   rw [e1] at hpart; cases hpart
   exact ⟨ts, e3⟩
@@ -450,7 +451,7 @@ theorem fieldRT_lng (P : Profile) (hwf : ProfileWF P = true) (dm : DefMsg) (pf :
     (hgf : P.getField dm.global pf.num = some pf) (hk : tcKind pf.tcode = .lng)
     (hlo : -(2147483648 : Int) ≤ z) (hhi : z < 2147483648) : FieldRT P dm pf .lng (.lng z) := by
   intro msg ts part hpart
-  obtain ⟨part0, e1, _, e3⟩ := coord_field_roundtrip P hwf dm pf msg ts z false hgf hk hlo hhi
+  obtain ⟨part0, e1, _, e3⟩ := coord_field_roundtrip P hwf dm pf msg ts z false hgf hk ⟨hlo, hhi⟩
   simp only [Bool.false_eq_true, ↓reduceIte] at e1 e3
   rw [e1] at hpart; cases hpart
   exact ⟨ts, e3⟩
@@ -489,6 +490,74 @@ set_option maxRecDepth 100000 in
     time_created, number and product_name all come back -/
 example : encodeDecode exampleFileId = some exampleFileId := by decide +kernel
 
+
+/-! ### the empty string as a filler -/
+
+theorem utf8Valid_zeros (n : Nat) : utf8Valid (List.replicate n 0) = true := by
+  induction n with
+  | zero => rfl
+  | succ k ih =>
+    rw [List.replicate_succ]
+    unfold utf8Valid
+    simp only [UInt8.toNat_zero, Nat.zero_lt_succ, ↓reduceIte]
+    exact ih
+
+theorem setAt_same_val {α} (l : List α) (i : Nat) (v : α) (h : l[i]? = some v) : setAt l i v = l := by
+  induction l generalizing i with
+  | nil => rfl
+  | cons x xs ih =>
+    cases i with
+    | zero => simp at h; subst h; rfl
+    | succ i => simp only [List.getElem?_cons_succ] at h; simp only [setAt, ih i h]
+
+/-- an unset string field written as a filler (all zero bytes) is read back as "nothing to store":
+    the message under construction, which still holds the empty string there, is unchanged -/
+theorem fieldRTI_string_empty (P : Profile) (hwf : ProfileWF P = true) (dm : DefMsg) (pf : PField)
+    (hgf : P.getField dm.global pf.num = some pf)
+    (hnat : tcKind pf.tcode = .native) (harr : tcArray pf.tcode = false) (hstr : tcBase pf.tcode = Base.string) :
+    FieldRTI P dm pf (.sc .s) (.s []) (.s []) := by
+  intro msg ts part hcur hpart
+  obtain ⟨pm, hpm, hfw⟩ := getField_wf P hwf _ _ _ hgf
+  have facts := fieldWF_facts pm pf hfw
+  obtain ⟨k, hl, hslot⟩ := facts.slot
+  have hsc : scOfBase (tcBase pf.tcode) = some .s := by rw [hstr]; decide
+  have hk : k = .sc .s := by
+    unfold slotOfType at hslot
+    rw [hnat] at hslot
+    simp only [hsc, harr, Bool.false_eq_true, ↓reduceIte, Option.some.injEq] at hslot
+    exact hslot.symm
+  subst hk
+  have hlen := writeField_length dm.arch pm pf _ _ part facts hslot hpart
+  -- what was written: zeros
+  have hzeros : part = List.replicate pf.length 0 := by
+    unfold writeField at hpart
+    simp only [harr, Bool.not_false, ↓reduceIte, encodeScalar, hnat, hstr] at hpart
+    unfold encodeString at hpart
+    have hn : ¬ pf.length = 0 := by have := facts.len1; omega
+    simp only [hn, ↓reduceIte, List.length_nil, Nat.zero_le, Nat.min_eq_left, List.take_nil, List.nil_append,
+      Nat.sub_zero, utf8Valid_zeros] at hpart
+    cases hpart
+    rfl
+  refine ⟨ts, ?_⟩
+  unfold applyField
+  simp only [fdOf, hgf, hpm, hl, hnat, harr]
+  simp only [Bool.not_true, Bool.false_eq_true, ↓reduceIte, Bool.not_false]
+  have hnn2 : ¬ (tcBase pf.tcode ≠ Base.string ∧ True ∧ Kind.native ≠ Kind.native) := fun h => h.2.2 rfl
+  rw [if_neg hnn2]
+  have htake : part.take (szOf pf) = part := by rw [← hlen]; exact List.take_length
+  rw [htake]
+  have hp : parseFitField dm.arch ⟨pf.num, szOf pf, tcBase pf.tcode⟩ (.sc .s) part = .ok none := by
+    rw [string_field_denotes dm.arch _ _ hstr, hzeros]
+    have : (List.replicate pf.length (0 : UInt8)).takeWhile (· != 0) = [] := by
+      cases hh : pf.length with
+      | zero => simp
+      | succ k => simp [List.replicate_succ]
+    rw [this]
+    rfl
+  rw [hp]
+  simp only
+  rw [setAt_same_val _ _ _ hcur]
+
 /-! ### whole Files: a decidable round-trip domain -/
 
 /-- is value `v`, stored in a Go field of kind `k`, inside the scalar round-trip domain of profile
@@ -516,8 +585,8 @@ def valRT (pf : PField) (k : SlotKind) (v : Val) : Bool :=
     tcKind pf.tcode == .native && !tcArray pf.tcode && tcBase pf.tcode == Base.string &&
       !b.isEmpty && decide (b.length < pf.length) && b.all (· != 0) &&
       utf8Valid (b ++ List.replicate (pf.length - b.length) 0)
-  | .time, .t secs 0 0 => tcKind pf.tcode == .timeUTC && decide (0 < secs ∧ secs < 4294967295)
-  | .lat, .lat z => tcKind pf.tcode == .lat && decide (-1073741824 ≤ z ∧ z < 1073741824)
+  | .time, .t secs 0 0 => tcKind pf.tcode == .timeUTC && decide (0 ≤ secs ∧ secs < 4294967295)
+  | .lat, .lat z => tcKind pf.tcode == .lat && decide ((-1073741824 ≤ z ∧ z < 1073741824) ∨ z = 2147483647)
   | .lng, .lng z => tcKind pf.tcode == .lng && decide (-2147483648 ≤ z ∧ z < 2147483648)
   | _, _ => false
 
@@ -558,19 +627,25 @@ theorem valRT_sound (P : Profile) (hwf : ProfileWF P = true) (dm : DefMsg) (pf :
     obtain ⟨h1, h2, h3⟩ := h
     have e : secs = ((secs.toNat : Nat) : Int) := (Int.toNat_of_nonneg (by omega)).symm
     rw [e]
-    exact fieldRT_time P hwf dm pf secs.toNat hgf h1 (by omega) (by omega)
+    exact fieldRT_time P hwf dm pf secs.toNat hgf h1 (by omega)
   · simp only [Bool.and_eq_true, beq_iff_eq, decide_eq_true_eq] at h
-    exact fieldRT_lat P hwf dm pf _ hgf h.1 h.2.1 h.2.2
+    exact fieldRT_lat P hwf dm pf _ hgf h.1 h.2
   · simp only [Bool.and_eq_true, beq_iff_eq, decide_eq_true_eq] at h
     exact fieldRT_lng P hwf dm pf _ hgf h.1 h.2.1 h.2.2
   · cases h
 
-/-- Boolean form of `MsgDom`: every field selected by `w` holds a value in the scalar domain, and
-    every field left invalid holds the constructor's invalid value -/
+/-- the empty string in a string field: what a group definition writes for a member that leaves the
+    field unset -/
+def strFillerB (pf : PField) (k : SlotKind) (v : Val) : Bool :=
+  k == .sc .s && v == .s [] && tcKind pf.tcode == .native && !tcArray pf.tcode && tcBase pf.tcode == Base.string
+
+/-- Boolean form of `MsgDom`: every field selected by `w` holds a value in the scalar domain — or,
+    if the message leaves it invalid, is a string field holding the empty string — and every field
+    left invalid holds the constructor's invalid value -/
 def msgDomB (pm : PMsg) (m : Msg) (w : PField → Bool) : Bool :=
   (pm.fields.all fun pf => !w pf ||
     match pm.layout[pf.sindex]?, m.vals[pf.sindex]? with
-    | some k, some v => valRT pf k v
+    | some k, some v => valRT pf k v || (isInvalidVal pm pf.sindex v && strFillerB pf k v)
     | _, _ => true) &&
   (List.range m.vals.length).all fun i =>
     match m.vals[i]? with
@@ -584,12 +659,28 @@ theorem msgDomB_sound (P : Profile) (hwf : ProfileWF P = true) (arch : Endian) (
   simp only [Bool.and_eq_true, List.all_eq_true, Bool.or_eq_true, Bool.not_eq_true', List.mem_range] at h
   obtain ⟨h1, h2⟩ := h
   have hmw := msg?_wf P hwf m.num pm hpm
-  constructor
-  · intro pf hp hW k v hk hv fs
+  have key : ∀ pf ∈ pm.fields, W pf → ∀ k v, pm.layout[pf.sindex]? = some k → m.vals[pf.sindex]? = some v →
+      valRT pf k v = true ∨ (isInvalidVal pm pf.sindex v = true ∧ strFillerB pf k v = true) := by
+    intro pf hp hW k v hk hv
     have := h1 pf hp
     rw [hw pf hW, hk, hv] at this
-    simp only [Bool.true_eq_false, false_or] at this
-    exact valRT_sound P hwf (defOf arch m.num fs) pf k v (getField_of_mem P m.num pm hpm hmw pf hp hkn) this
+    simpa using this
+  refine ⟨?_, ?_, ?_⟩
+  · intro pf hp hW k v hk hv hiv fs
+    have hgf := getField_of_mem P m.num pm hpm hmw pf hp hkn
+    rcases key pf hp hW k v hk hv with h | h
+    · exact valRT_sound P hwf (defOf arch m.num fs) pf k v hgf h
+    · rw [hiv] at h; cases h.1
+  · intro pf hp hW k v hk hv hiv fs
+    have hgf := getField_of_mem P m.num pm hpm hmw pf hp hkn
+    rcases key pf hp hW k v hk hv with h | h
+    · exact (valRT_sound P hwf (defOf arch m.num fs) pf k v hgf h).toI v
+    · have hf := h.2
+      unfold strFillerB at hf
+      simp only [Bool.and_eq_true, beq_iff_eq, Bool.not_eq_true'] at hf
+      obtain ⟨⟨⟨⟨e1, e2⟩, e3⟩, e4⟩, e5⟩ := hf
+      subst e1 e2
+      exact fieldRTI_string_empty P hwf (defOf arch m.num fs) pf hgf e3 e4 e5
   · intro i v hv hiv
     have hi : i < m.vals.length := (List.getElem?_eq_some_iff.mp hv).1
     have := h2 i hi
@@ -729,13 +820,14 @@ def mkMsg (n : Nat) (sets : List (Nat × Val)) : Msg :=
   | some pm => ⟨n, sets.foldl (fun vs iv => setAt vs iv.1 iv.2) pm.invalid⟩
   | none => ⟨n, []⟩
 
-/-- a settings file: two user_profile messages with different valid fields (so the slice gets a
-    union definition and each record carries invalid values), one hrm_profile message -/
+/-- a settings file: two user_profile messages with different valid fields — a name in the first
+    only — so the slice gets a union definition and each record carries invalid fillers (among them
+    the empty string); one hrm_profile message -/
 def exampleSettings : FileSt :=
   { hdr := { size := 14, proto := 0x20, profile := 2115, dtype := fitTag },
     fileId := mkMsg 0 [(0, .u 2), (1, .u 1), (2, .u 7), (3, .u 12345), (4, .t 1000 0 0)],
     cidx := some 1,
-    slots := [[mkMsg 3 [(2, .u 1), (3, .u 30)], mkMsg 3 [(3, .u 41), (4, .u 180)]], [mkMsg 4 [(0, .u 1)]], [], [], []] }
+    slots := [[mkMsg 3 [(1, .s [65, 66]), (2, .u 1), (3, .u 30)], mkMsg 3 [(3, .u 41), (4, .u 180)]], [mkMsg 4 [(0, .u 1)]], [], [], []] }
 
 def encodesSmall (arch : Endian) (f : FileSt) : Bool :=
   match encode Gen.profile arch f with
